@@ -82,7 +82,6 @@ pub fn c11_repetition_window() {
     let len: usize = kani::any();
     kani::assume(len <= 6);
     let keys: [u64; 6] = [kani::any(), kani::any(), kani::any(), kani::any(), kani::any(), kani::any()];
-    g.history = Vec::with_capacity(6);
     let mut i = 0;
     while i < len {
         g.history.push(History {
